@@ -176,7 +176,7 @@ def real(case, mask):
     if out != 'ok':
         return 'raise:' + out, None
     env = ['%s:%s' % (lib, o.id) for lib in ['images', 'effects', 'materials', 'geometries', 'controllers', 'lights', 'cameras'] for o in getattr(d, lib)]
-    return 'ok env=%s errors=%s' % (','.join(env), ','.join(type(e).__name__ for e in d.errors)), d
+    return 'ok env=%s errors=%s' % (','.join(env), ','.join(c08.kname(e) for e in d.errors)), d
 
 
 MASKS = [['DaeError'], [], ['DaeBrokenRefError'], ['DaeIncompleteError', 'DaeMalformedError'], ['DaeUnsupportedError', 'DaeBrokenRefError', 'DaeMalformedError']]
